@@ -20,6 +20,7 @@ ASSUMPTIONS = ["bounded-round convergence under arbitrary fault schedules is a l
 TRUSTED = []
 
 MUTANTS = [
+    {"name": "importing-reports-skipped", "file": "src/coordinator/migration.rs", "old": "                        Some(meta) => metadata.push(meta),\n", "new": "                        Some(meta) if meta.slot_range.tag.is_importing() => (),\n                        Some(meta) => metadata.push(meta),\n", "expect": "C07.D4:reports-all-handed-on"},
     {"name": "src-before-dst", "file": "src/coordinator/core.rs", "old": "        Self::set_cluster_meta(dst_address, meta_retriever, sender).await?;\n        Self::set_cluster_meta(src_address, meta_retriever, sender).await?;", "new": "        Self::set_cluster_meta(src_address, meta_retriever, sender).await?;\n        Self::set_cluster_meta(dst_address, meta_retriever, sender).await?;", "expect": "C07.D1"},
     {"name": "force-true", "file": "src/coordinator/sync.rs", "old": "        let flags = ClusterMapFlags {\n            force: false,", "new": "        let flags = ClusterMapFlags {\n            force: true,", "expect": "C07.D2:force"},
     {"name": "old-epoch-is-error", "file": "src/coordinator/sync.rs", "old": "            if err_str == OLD_EPOCH_REPLY.as_bytes() {\n                Ok(())", "new": "            if err_str == OLD_EPOCH_REPLY.as_bytes() {\n                Err(CoordinateError::InvalidReply)", "expect": "C07.D2:old-epoch"},
@@ -58,6 +59,7 @@ def run(ctx):
     _full_resync(ctx)
     _send_unconditional(ctx)
     _stateless(ctx)
+    _reports_all_handed_on(ctx)
     from ..engine import AliasCtx
     from . import C05 as _c05, C04 as _c04
     _c05.run(AliasCtx(ctx, "C07.D6", only={"C05.D1"}))
@@ -129,6 +131,49 @@ def _sync_migration(ctx):
                            for bb, i, s in b.assigns() if s["place"]["l"] == 0 and bb in err_exits)
         ctx.check(has_err_exit and not bad, "C07.D1", "failed-commit-returns", site(b, cb), ok="a failed commit returns the error before any push",
                   bad="a failed commit does not end the round for this task (error exit from commit present=%s, reaches push=%s)" % (has_err_exit, bad))
+
+
+def _reports_all_handed_on(ctx):
+    """INFOMGR reply -> commit candidates: every element that parses as a task report is handed on.  Both sides of a
+    migration report a finished task and either report alone must be enough (the source may be gone after the destination
+    committed the final switch), so between the parse call and the push into the result only the parse result's own
+    Some/None test may decide."""
+    F = ctx.F
+    from ..lib import branch_conditions
+    META = "common::cluster::MigrationTaskMeta"
+    found = 0
+    for b in F.all_bodies(bins=False):
+        if b.crate != "undermoon" or b.is_mock() or "tests::" in b.path or not b.path.startswith("coordinator::"):
+            continue
+        parses = [(bb, t) for bb, t in b.calls() if not t["dest"]["p"] and b.locals[t["dest"]["l"]]["ty"] == "std::option::Option<%s>" % META
+                  and (callee_of(t) or "") in F.bodies]
+        pushes = [(bb, t) for bb, t in b.calls() if (callee_of(t) or "").endswith("Vec::push") and t.get("atys") and META in t["atys"][0]]
+        if not parses or not pushes:
+            continue
+        found += 1
+        ctx.analysed(b)
+        du = DefUse(b)
+        dom = cfg.dominators(b)
+        for pb, pt in pushes:
+            src = [bb for bb, t in parses if bb in dom.get(pb, ())]
+            if not src:
+                continue
+            res = b.blocks[src[-1]].term["dest"]["l"]
+            extra = []
+            for gd, discr, val in branch_conditions(b, pb, dom):
+                if not (src[-1] in dom.get(gd, ()) and gd != src[-1]):
+                    continue
+                pl_ = discr.get("mv") or discr.get("cp")
+                own = False
+                for df in du.defs.get(pl_["l"], []) if pl_ else []:
+                    if df[0] == "assign" and df[3]["rv"]["k"] == "discr" and df[3]["rv"]["p"]["l"] == res and not df[3]["rv"]["p"]["p"]:
+                        own = True
+                if not own:
+                    extra.append(b.blocks[gd].term.get("line"))
+            ctx.check(not extra, "C07.D4", "reports-all-handed-on:%s" % b.path.split("::")[-2 if b.path.endswith("}") else -1], site(b, pb),
+                      ok="every parsed task report is handed to the committer",
+                      bad="a parsed task report is dropped under a further condition (lines %s): a finished migration reported by one side only (the other proxy is gone) would never be committed" % extra)
+    ctx.floor("C07.D4", "INFOMGR report collection (parse -> push)", found, 1)
 
 
 def _flags(ctx):
